@@ -300,6 +300,10 @@ func TestC03(t *testing.T) {
 			}
 			c.ViaPtr = rapid.IntRange(0, 4).Draw(t, "viaPtr") == 0
 			c.LateRule = rapid.IntRange(0, 5).Draw(t, "lateRule") == 0
+			if car == "rm" && rapid.Bool().Draw(t, "underTag") {
+				c.Under = rapid.SampledFrom(underTags).Draw(t, "underRule")
+				ev.Class("declared-rule-replaced-by-the-rule-map")
+			}
 			if car == "tag" && collDecoy == "" && rapid.IntRange(0, 2).Draw(t, "decoy") == 0 {
 				// an earlier call on the same struct type whose per-call rule differs in required-ness
 				c.Decoy = rapid.SampledFrom([]string{"required", "required|decoy", "to=1~3", "ge=2|decoy", "phone"}).Draw(t, "decoyRule")
